@@ -117,6 +117,10 @@ func (fr *Frame) cmdCall(in *ssa.Call, name string, args []*GVal) (*GVal, bool) 
 		c := ex.newCell("flag@"+in.Name(), t, w.SortOf(t), in)
 		ex.st.cells[c] = fr.term(args[1])
 		ex.flagCells = append(ex.flagCells, c)
+		if ex.flagNames == nil {
+			ex.flagNames = map[*Cell]*Term{}
+		}
+		ex.flagNames[c] = fr.term(args[0]) // the name the flag is registered under
 		return &GVal{Ptr: &Ptr{Cell: c}, Typ: in.Type()}, true
 	case "flag.Parse":
 		for _, c := range ex.flagCells {
